@@ -50,7 +50,8 @@ def run_property(pid, tier="quick", seed=0, root=None, quiet=False, ctx=None):
         print("ANALYSIS-ERROR property=%s rule=internal reason=%s: %s | %s" % (pid, type(e).__name__, e, " <- ".join(l.strip() for l in tb[-6:-1])))
         return 2, R, [], []
     level = getattr(mod, "LEVEL", "other")
-    expl = getattr(mod, "__doc__", "") or ""
+    expl = (getattr(mod, "__doc__", "") or "") + " FRESH (all properties): no function in the property's scope changes in place an accumulator that is shared between calls " \
+        "(a mutable or clock-valued parameter default, a module-level list / bytearray)."
     code, new, known = finish(R, level, " ".join(expl.split()), quiet=quiet)
     return code, R, new, known
 
